@@ -497,3 +497,33 @@ Proof.
   cbv zeta. split; [apply history_only_signers_debited; exact ex_s_params|].
   repeat split; vm_compute; reflexivity.
 Qed.
+
+(** * The checker's monitor is the boolean form of the theorem
+
+    [SignersCheck.mon_only_signers] (evaluated by the correspondence check on the
+    IMPLEMENTATION's states) holds of every transition of the model, whatever
+    universe of accounts, denominations and pairs is tracked: a monitor failure
+    on observed states is therefore a behaviour the model cannot show. *)
+From Canto Require Check.SignersCheck.
+
+Theorem monitor_sound now s m accts denoms pairs :
+  params_valid (st_params (s_cs s)) = true ->
+  SignersCheck.mon_only_signers accts denoms pairs s (fst (deliver now s m)) m (signers m) = true.
+Proof.
+  intros HP. unfold SignersCheck.mon_only_signers. apply forallb_forall. intros x _.
+  destruct (SignersCheck.lost denoms pairs s (fst (deliver now s m)) x) eqn:HL; [|reflexivity].
+  cbn [negb orb].
+  assert (HD : debited s (fst (deliver now s m)) x).
+  { unfold SignersCheck.lost in HL. apply orb_prop in HL as [HL|HL]; apply existsb_exists in HL as (k & _ & HK).
+    - left. exists k. apply Z.ltb_lt. exact HK.
+    - apply orb_prop in HK as [HK|HK]; [right; left|right; right]; exists k; apply Z.ltb_lt; exact HK. }
+  destruct (only_signers_debited _ _ _ _ HP HD) as [H|H].
+  - rewrite H. reflexivity.
+  - unfold in_signers in H. rewrite H. apply orb_true_r.
+Qed.
+
+Theorem monitor_exact_sound m : SignersCheck.mon_exact_signer m (signers m) = true.
+Proof.
+  unfold SignersCheck.mon_exact_signer. destruct (payer_wf m) eqn:W; [|reflexivity]. cbn [negb orb].
+  rewrite (signers_exact _ W). cbn. rewrite acct_eqb_refl. reflexivity.
+Qed.
